@@ -150,6 +150,13 @@ func c04Scenario(rng *rand.Rand) *prodScenario {
 			sc.FaultCodes = append(sc.FaultCodes, pickCode(f, rng))
 		}
 	}
+	if !sc.Version.IsAtLeast(sarama.V0_11_0_0) && len(sc.Msgs) > 0 && rng.Intn(5) == 0 {
+		// record headers under a version that cannot carry them: the producer has to refuse the message
+		for k := 0; k < 1+rng.Intn(2); k++ {
+			ms := sc.Msgs[rng.Intn(len(sc.Msgs))]
+			ms.Headers = []sarama.RecordHeader{{Key: []byte("h"), Value: randBytes(rng, 1+rng.Intn(8))}}
+		}
+	}
 	if len(sc.Faults) > 0 || sc.Idempotent || sc.Acks == sarama.NoResponse {
 		// records without any identifier are only judged in fault-free runs (no resends, no duplicates)
 		for _, ms := range sc.Msgs {
